@@ -387,6 +387,10 @@ def decide(pid, tier, seed, P, vres, kres, kmeta, vac, t0, evdir):
     kani_replays = {}
     for files, lst in groups.items():
         try:
+            if os.environ.get('VERIF_FAST_TRIAGE'):
+                # detection sweeps (bin/seedmatrix): skip the concrete-playback re-run; the replay file names the
+                # failed checks and the VIOLATION line says no-failing-input-found
+                raise RuntimeError('concrete playback skipped (VERIF_FAST_TRIAGE)')
             ret = kani_counterexamples([h for h, _ in lst], list(files), evdir, pid)
         except Exception as e:
             ret = {}
